@@ -169,7 +169,11 @@ def nodes_where(mesh, where):
 def apply_bc(rec, bc):
     s = rec.simu
     kind, where, values = bc["kind"], bc["where"], bc["values"]
-    nodes = nodes_where(s.mesh, where)
+    # node sets are resolved once, on the simulation the user acted on; the fresh reference gets the
+    # same node indices (same numbering), not a re-evaluation of the selector on moved coordinates
+    if "nodes" not in bc:
+        bc["nodes"] = [int(n) for n in nodes_where(s.mesh, where)]
+    nodes = np.array(bc["nodes"], dtype=int)
     if rec.typ == "Thermal":
         unk = ["t"]
     elif rec.typ == "Beam":
